@@ -404,6 +404,7 @@ func (c *client) handleWorkDoneMessage(runtimeMessage DecodedRuntimeMessage) {
 func (c *client) handleSignalMessage(runtimeMessage DecodedRuntimeMessage) {
 	var signalMessage SignalMessage
 	if err := cbor.Unmarshal(runtimeMessage.RawMessageData, &signalMessage); err != nil {
+		vh("c.sigfwd", "run", runtimeMessage.RunID, "undecodable", true)
 		c.logger.Errorf("ATP client for run ID '%s' failed to decode signal message: %v",
 			runtimeMessage.RunID, err)
 		return
@@ -432,6 +433,7 @@ func (c *client) handleErrorMessage(runtimeMessage DecodedRuntimeMessage) bool {
 		c.logger.Errorf("Step with run ID '%s' failed to decode error message: %v",
 			runtimeMessage.RunID, err)
 	}
+	vh("c.errmsg", "run", runtimeMessage.RunID, "step", errMessage.StepFatal, "server", errMessage.ServerFatal)
 	errorMessageStr := errMessage.ToString(runtimeMessage.RunID)
 	resultMsg := fmt.Errorf("step with run ID %q sent error message: %s", runtimeMessage.RunID, errorMessageStr)
 	c.logger.Errorf(resultMsg.Error())
@@ -504,6 +506,7 @@ func (c *client) executeReadLoop(cborReader *cbor.Decoder) {
 				return // Fatal
 			}
 		default:
+			vh("c.unknown", "id", runtimeMessage.MessageID)
 			c.logger.Warningf(
 				"Step with run ID '%s' sent unknown message type: %d",
 				runtimeMessage.RunID,
